@@ -1,20 +1,40 @@
 import KyupyVerif.Proofs.Sdf
 import KyupyVerif.Proofs.SdfText
 import KyupyVerif.Proofs.SdfTextRaw
+import KyupyVerif.Proofs.SdfCirc
 /-! # C14 — every SDF delay lands on the right line, polarity and data set — none is lost
 
 Object of the theorems: the hand-written model `KV.Sdf` (Model/Sdf.lean) of `kyupy/sdf.py` *after* lark:
-`triple`, `sanitize`, `cell`, `start`, `DelayFile.__init__`, `iopaths`, `interconnects`, over an abstract circuit
-given by two tables (`pinLine`, `icLine`).  All theorems quantify over ALL block lists / delay files and ALL tables.
+`triple`, `sanitize`, `cell`, `start`, `DelayFile.__init__`, `iopaths`, `interconnects`, first over an abstract circuit
+given by two tables (`pinLine`, `icLine`: theorems for ALL block lists / delay files and ALL tables), then (section
+`circuit`, Model/SdfCirc.lean) with the look-ups the real code performs over the named circuit dump `NNet` and the library's
+pin table: `pinLook` (`circuit.cells.get`, `cell.ins[tlib.pin_index(kind, pin)]`) and `icLook` (both cells, pin indices, the
+two warn exits, fork asserts, branch fork / sole reader / warn).
 
 * **Theorem** (kernel-checked, this file): where every assignment of the two annotation loops lands
   (`iopath_lands`, `interconnect_lands`), that nothing else is touched (`others_zero_*`), the value conventions
-  (`triple_*`, `sanitize_*`, `edge_qualified_*`, `unqualified`, `icSkip_iff_all_zero`), and what `start` keeps of a
-  file: `Mode.merge` (repaired code) keeps every entry of every block (`none_lost`, `none_lost_mem`,
+  (`edge_qualified_*`, `unqualified`), the skip test of the INTERCONNECT loop: `icSkip_iff`, `icSkip_iff_all_zero`,
+  `icSkip_false_iff` — an entry is skipped EXACTLY when all its values are zero, negative values included (repaired code, D34;
+  `icSkipOld_drops_nonzero` = what the lexicographic `max(max(delvals)) == 0` of the tree before D34 dropped,
+  `icSkipOld_eq_of_nonneg` = why it stayed unseen); the landing theorems take "the entry is not all-zero" (`hnz`) where they
+  took the opaque `hskip : icSkip … = false` before (audit finding 3: strictly stronger, same names).
+  What `start` keeps of a file: `Mode.merge` (repaired code) keeps every entry of every block (`none_lost`, `none_lost_mem`,
   `none_lost_top`, `regroup_split`, `none_lost_result`, end-to-end `iopath_lands_file`, `interconnect_lands_file`);
-  `Mode.lastWins` (the `dict(...)` of the current tree) keeps only the last block of a name
+  `Mode.lastWins` (the `dict(...)` of the tree before D6) keeps only the last block of a name
   (`lastWins_keeps_last_only`), so the full statement is FALSE for it (`none_lost_false_lastWins`,
   `none_lost_top_false_lastWins`) and only `none_lost_partial` (pairwise different block names) holds.
+  `interconnects` is PARTIAL: `none` = the real code raises `TypeError` because the file has no block without INSTANCE name
+  (`interconnects_none_iff`); statements about its result have the form `(interconnects …).map (fun A => A d l ip op) = some v`.
+* **Theorem, look-ups** (section `circuit`, audit finding 7): `pin_lookup_spec` — on a well-formed dump (`NNet.wf`, decidable, the
+  predicate of C10) the IOPATH look-up answers `l` iff `l` is THE line whose reader is pin `pin_index(kind, pin)` of the cell of
+  that name; `cell_lookup_spec`, `pin_lookup_skip`; `interconnect_lookup_spec` — the answered line enters pin 0 of the fork that
+  drives the destination pin, that fork has one reader, and it is the signal fork itself (sole line) or a branch fork fed by the
+  signal fork of the origin pin; `iopath_lands_circuit`, `interconnect_lands_circuit` — the landing theorems with these
+  look-ups in place of the tables (the auditor's witness "a table that sends every pin to line 0" is no instance any more).
+  Not proved: completeness of `icLook` (that it finds a line whenever the declarative description is satisfiable) and
+  that `verilog.parse` builds the fork structure the description speaks of (C11's subject).
+* **Lemmas, not property theorems** (Proofs/Sdf.lean, `rfl` restatements of definitions, formerly listed here):
+  `triple_empty_fields`, `triple_unit`, `norm_full`, `sanitize_single`, `sanitize_pair`.
 * **Theorem, text level** (section `text`, model `KV.SdfText` in Model/SdfText.lean = the grammar of `sdf.py` read as lark reads
   it: contextual scanner with the per-state terminal order of the real `Lark` object, keywords as prefixes, `ID` /
   `ID_OR_EDGE` tried before the ignored terminals, `_NOB`, balanced TIMINGCHECK skip; then `SdfFile.ok` = what
@@ -27,34 +47,24 @@ given by two tables (`pinLine`, `icLine`).  All theorems quantify over ALL block
   hand-written corner cases and on mutated texts (one or two edits: character deleted / inserted / replaced, fragment
   inserted); the generated text must read back as the generator's block list; for accepted mutants the delay arrays of the
   post-parse model fed with the MODEL's block list equal the real arrays; (b) the post-parse model — in the mode that a probe
-  of the real `sdf.parse` selects — against the real `sdf.parse(text).iopaths/.interconnects` on generated circuits and texts.
+  of the real `sdf.parse` selects — against the real `sdf.parse(text).iopaths/.interconnects` on generated circuits and texts,
+  twice: with tables exported from the real circuit by structural search (driver `sdf`), and with the concrete look-ups fed
+  with the circuit dump and `tlib.cells` (driver `sdfc`): whole arrays, the raise of `interconnects()` on a file without
+  top-level block, and PER ENTRY the line index (or warn / raise) that the real loop picks, observed by running each entry alone
+  through the real `iopaths()` / `interconnects()`.
   What remains trusted at the text level: that lark implements the grammar as the hand-written reader does (LALR tables,
   `re` semantics of the terminals) — checked by (a), not proved; `float`, NumPy assignment and the Verilog reader are
   exercised, not modelled.
-* **Oracle** (harness/c14.py): the generator's ground-truth array (it placed every value itself) against the real
-  result; this, not the model, decides violations. -/
+* **Oracle** (harness/c14.py): the generator's ground-truth array (it placed every value itself; negative IOPATH and
+  INTERCONNECT values, all-zero entries and entries that are not all-zero although `max(max(delvals)) == 0` included) against
+  the real result; this, not the model, decides violations (classes `interconnect-lexmax-skip` = D34, `repeated-cell-block` = D6,
+  `sdf-annotation`). -/
 namespace KV.C14
 open KV.Sdf
 
-/-! ## values: empty fields, `()`, one value list -/
-/-- `(a::)`, `(::c)`: an empty field reads as 0 -/
-theorem triple_empty_fields (a c : Val) :
-    triple [some a, none, none] = [a, 0, 0] ∧ triple [none, none, some c] = [0, 0, c] ∧
-    triple [none, none, none] = [0, 0, 0] := ⟨rfl, rfl, rfl⟩
-
-/-- `()` gives the empty list, which both annotation loops replace by three zeros -/
-theorem triple_unit : triple [] = [] ∧ norm (triple []) = [0, 0, 0] := ⟨rfl, rfl⟩
-
-theorem norm_full (a b c : Val) : norm [a, b, c] = [a, b, c] := rfl
-
-/-- a single value list applies to both output polarities -/
-theorem sanitize_single (a b : String) (t : RawTriple) :
-    (sanitize ⟨a, b, [t]⟩).r = triple t ∧ (sanitize ⟨a, b, [t]⟩).f = triple t := ⟨rfl, rfl⟩
-
-/-- two value lists: first = rising output, second = falling output -/
-theorem sanitize_pair (a b : String) (t u : RawTriple) :
-    (sanitize ⟨a, b, [t, u]⟩).r = triple t ∧ (sanitize ⟨a, b, [t, u]⟩).f = triple u := ⟨rfl, rfl⟩
-
+/-! ## values: qualifiers and the skip test
+(the `rfl` restatements of the value conventions — `triple_empty_fields`, `triple_unit`, `norm_full`, `sanitize_single`,
+`sanitize_pair` — are lemmas of Proofs/Sdf.lean, not property theorems: audit finding 7) -/
 /-- `(posedge P)` selects input polarity 0 only and names pin `P` -/
 theorem edge_qualified_pos (p : String) (h1 : p.toList ≠ []) (h2 : ')' ∉ p.toList) :
     polsOf ("(posedge " ++ p ++ ")") = [false] ∧ pinOf ("(posedge " ++ p ++ ")") = p :=
@@ -511,6 +521,101 @@ example : iopaths exPins (parse .merge exCells) 1 5 false false = 2 :=
     (by decide +kernel) (by decide +kernel) (by decide) (by decide +kernel)
 /-- `none_lost_partial` has non-trivial instances -/
 example : ((([exCells[0], exCells[1], exCells[2]] : List RawCell).map cell).map (·.1)).Nodup := by decide +kernel
+
+/-! ## the look-ups as the real code performs them, over the circuit dump (audit finding 7; Model/SdfCirc.lean) -/
+section circuit
+open KV.Transform
+
+/-- IOPATH look-up = "the line whose reader is pin `tlib.pin_index(kind, pin)` of the cell of that name": on a well-formed
+circuit dump `pinLook` answers `l` exactly for that line (unique: a pin holds one line). -/
+theorem pin_lookup_spec (C : NNet) (hwf : C.wf = true) (tl : PinIdx) (name pin : String) (l : Nat) :
+    pinLook C tl name pin = .line l ↔
+      ∃ i idx, cellOf C name = some i ∧ tl (C.net.node i).kind pin = some idx ∧
+        l < C.net.lines.size ∧ (C.net.line l).reader = i ∧ (C.net.line l).rpin = idx :=
+  pinLook_line_iff C (WF.of_wf hwf) tl name pin l
+
+/-- the cell found under a name is a non-fork node of that name, and every such node is found (well-formed dump) -/
+theorem cell_lookup_spec (C : NNet) (hwf : C.wf = true) (name : String) (i : Nat) :
+    cellOf C name = some i ↔ i < C.net.nodes.size ∧ C.names.getD i "" = name ∧ (C.net.node i).isFork = false :=
+  ⟨cellOf_spec, fun h => cellOf_complete (WF.of_wf hwf) h.1 h.2.1 h.2.2⟩
+
+/-- the IOPATH loop warns and skips exactly when the cell is unknown or the named pin is open -/
+theorem pin_lookup_skip (C : NNet) (tl : PinIdx) (name pin : String) :
+    pinLook C tl name pin = .skip ↔
+      cellOf C name = none ∨ ∃ i idx, cellOf C name = some i ∧ tl (C.net.node i).kind pin = some idx ∧
+        idx < (C.net.node i).ins.length ∧ (C.net.node i).inPin idx = none :=
+  pinLook_skip_iff C tl name pin
+
+/-- INTERCONNECT look-up (soundness): the answered line enters pin 0 of the fork `f2` that drives the named input pin of `c2`,
+`f2` has one reader, the line leaving the named output pin of `c1` enters a fork `f1`, and either `f1 = f2` (sole line, no
+fan-out) or `f2` is a branch fork fed by `f1`. -/
+theorem interconnect_lookup_spec (C : NNet) (hwf : C.wf = true) (tl : PinIdx) (c1 : String) (p1 : Option String) (c2 : String)
+    (p2 : Option String) (l : Nat) (h : icLook C tl c1 p1 c2 p2 = .line l) :
+    ∃ i1 i2 q1 q2 lo li, cellOf C c1 = some i1 ∧ cellOf C c2 = some i2 ∧
+      endPin tl (C.net.node i1).kind p1 = some q1 ∧ endPin tl (C.net.node i2).kind p2 = some q2 ∧
+      (C.net.node i1).outPin q1 = some lo ∧ (C.net.node i2).inPin q2 = some li ∧
+      (C.net.node (C.net.line lo).reader).isFork = true ∧ (C.net.node (C.net.line li).driver).isFork = true ∧
+      (C.net.node (C.net.line li).driver).outs.length = 1 ∧
+      l < C.net.lines.size ∧ (C.net.line l).reader = (C.net.line li).driver ∧ (C.net.line l).rpin = 0 ∧
+      ((C.net.line lo).reader = (C.net.line li).driver ∨
+       ((C.net.line lo).reader ≠ (C.net.line li).driver ∧ (C.net.line l).driver = (C.net.line lo).reader)) :=
+  icLook_line_spec C (WF.of_wf hwf) tl c1 p1 c2 p2 l h
+
+/-- `iopath_lands` with the look-up the real code performs: the values of the entry stand on THE line that feeds pin
+`tlib.pin_index(kind, pin)` of the instance (`hcell`, `hpin`, `hreader`: the declarative description of that line). -/
+theorem iopath_lands_circuit (C : NNet) (hwf : C.wf = true) (tl : PinIdx) (df : DelayFile) (pre post : List (String × Entry))
+    (n : String) (e : Entry) (i idx l d : Nat) (ip op : Bool)
+    (hsplit : namedEntries df = pre ++ (n, e) :: post)
+    (hcell : cellOf C (stripBackslash n) = some i) (hpin : tl (C.net.node i).kind (pinOf e.a) = some idx)
+    (hl : l < C.net.lines.size) (hreader : (C.net.line l).reader = i ∧ (C.net.line l).rpin = idx)
+    (hip : ip ∈ polsOf e.a) (hd : d < 3)
+    (hpost : ∀ p ∈ post, ∀ w, ioWrite (pinLineOf C tl) p.1 p.2 = some w → w.covers l ip = false) :
+    iopaths (pinLineOf C tl) df d l ip op = (norm (if op then e.f else e.r)).getD d 0 := by
+  apply iopath_lands (pinLineOf C tl) df pre post n e l d ip op hsplit _ hip hd hpost
+  have := (pin_lookup_spec C hwf tl (stripBackslash n) (pinOf e.a) l).mpr ⟨i, idx, hcell, hpin, hl, hreader.1, hreader.2⟩
+  simp [pinLineOf, this, Look.toOpt]
+
+/-- `interconnect_lands` with the look-up the real code performs (`icLookE`: names split at `/`, backslashes removed, the
+fork decision of `icLook`, described by `interconnect_lookup_spec`). -/
+theorem interconnect_lands_circuit (C : NNet) (tl : PinIdx) (df : DelayFile) (pre post : List Entry) (e : Entry)
+    (l d : Nat) (ip op : Bool)
+    (hsplit : icEntries df = some (pre ++ e :: post))
+    (hnz : ∃ v ∈ norm e.r ++ norm e.f, v ≠ 0)
+    (hlook : icLookE C tl e = .line l) (hd : d < 3)
+    (hpost : ∀ e' ∈ post, ∀ w, icWrite (icLineOf C tl) e' = some w → w.line ≠ l) :
+    (interconnects (icLineOf C tl) df).map (fun A => A d l ip op) = some ((norm (if op then e.f else e.r)).getD d 0) := by
+  apply interconnect_lands (icLineOf C tl) df pre post e l d ip op hsplit hnz _ hd hpost
+  unfold icLookE at hlook
+  simp only at hlook
+  simp [icLineOf, hlook, Look.toOpt]
+
+/-- a circuit `a -> u1 (INV_X1) -> n -> u2 (INV_X1) -> z` with signal forks (no branch forks), as `dump_net` exports it -/
+def exCirc : NNet :=
+  { net := { nodes := #[⟨"input", [], [some 0]⟩, ⟨"__fork__", [some 0], [some 1]⟩, ⟨"INV_X1", [some 1], [some 2]⟩,
+                        ⟨"__fork__", [some 2], [some 3]⟩, ⟨"INV_X1", [some 3], [some 4]⟩, ⟨"__fork__", [some 4], [some 5]⟩,
+                        ⟨"output", [some 5], []⟩],
+             lines := #[⟨0, 0, 1, 0⟩, ⟨1, 0, 2, 0⟩, ⟨2, 0, 3, 0⟩, ⟨3, 0, 4, 0⟩, ⟨4, 0, 5, 0⟩, ⟨5, 0, 6, 0⟩],
+             io := [0, 6] },
+    names := #["a", "a", "u1", "n", "u2", "z", "z"] }
+def exTl : PinIdx := fun k p => if k = "INV_X1" ∧ (p = "I" ∨ p = "ZN") then some 0 else none
+
+example : exCirc.wf = true := by decide +kernel
+example : pinLook exCirc exTl "u2" "I" = .line 3 ∧ pinLook exCirc exTl "u9" "I" = .skip
+    ∧ pinLook exCirc exTl "u2" "Q" = .raise := by decide +kernel
+example : icLook exCirc exTl "u1" (some "ZN") "u2" (some "I") = .line 2 ∧ icLook exCirc exTl "a" none "u1" (some "I") = .line 0
+    ∧ icLook exCirc exTl "u7" none "u1" (some "I") = .raise := by decide +kernel
+/-- the hypotheses of `iopath_lands_circuit` / `interconnect_lands_circuit` hold for the auditor's witness file on this circuit;
+the negative INTERCONNECT value lands (repaired skip test) -/
+example : iopaths (pinLineOf exCirc exTl) (parse .merge [⟨["u2"], [[⟨"I", "ZN", [[some 1, some 2, some 3]]⟩]]⟩]) 1 3 true false = 2 :=
+  iopath_lands_circuit exCirc (by decide +kernel) exTl _ [] [] "u2" ⟨"I", "ZN", [1, 2, 3], [1, 2, 3]⟩ 4 0 3 1 true false
+    (by decide +kernel) (by decide +kernel) (by decide +kernel) (by decide +kernel) (by decide +kernel) (by decide +kernel)
+    (by decide) (by simp)
+example : (interconnects (icLineOf exCirc exTl)
+      (parse .merge [⟨[], [[⟨"u1/ZN", "u2/I", [[some 0, some 0, some 0], [some (-1), some 5, some 5]]⟩]]⟩])).map
+        (fun A => A 0 2 false true) = some (-1) :=
+  interconnect_lands_circuit exCirc exTl _ [] [] ⟨"u1/ZN", "u2/I", [0, 0, 0], [-1, 5, 5]⟩ 2 0 false true
+    (by decide +kernel) ⟨-1, by decide, by decide⟩ (by decide +kernel) (by decide) (by simp)
+end circuit
 
 /-! ## text level: the grammar of `sdf.py` (Model/SdfText.lean) -/
 section text
